@@ -14,8 +14,8 @@ import (
 	"time"
 
 	"github.com/anishathalye/porcupine"
-	rangeplugin "github.com/coredhcp/coredhcp/plugins/range"
 	"github.com/coredhcp/coredhcp/handler"
+	rangeplugin "github.com/coredhcp/coredhcp/plugins/range"
 	"github.com/insomniacslk/dhcp/dhcpv4"
 
 	"verif/internal/fw"
